@@ -307,12 +307,24 @@ def part_sql(chk, drv):
     vals = [v for v in statement_values(tables) if render_sql(v)]
     n = 0
     orig = SqlFluffLineageAnalyzer.analyze
-    for _ in range(n_scripts):
-        k = chk.rng.randrange(2, 9)
-        hist = [chk.rng.choice(vals) for _ in range(k)]
-        if chk.rng.random() < 0.6:
-            hist = [s for s in hist if s[0] == "rw"] or hist
-        sql = ";\n".join(render_sql(s) for s in hist)
+    # systematic: the SAME statement text before and after every other statement (a cache keyed by statement text, or
+    # holders de-duplicated by identity, only shows when a DROP / RENAME / other write sits between two occurrences —
+    # seeded mutant C03/2), then random longer scripts
+    small = [v for v in statement_values(["a", "b", "c"]) if render_sql(v)]
+    rep_first = [["rw", ["a"], "b"], ["rw", ["a", "c"], "b"], ["rw", ["b"], None], ["rw", [], "b"]]
+    systematic = [[s1, s2, s1] for s1 in rep_first for s2 in small if s2 != s1]
+    if chk.tier == "quick":
+        systematic = [h for h in systematic if h[1][0] != "rw" or len(h[1][1]) <= 1]
+    todo = systematic + [None] * n_scripts
+    for planned in todo:
+        if planned is not None:
+            hist = planned
+        else:
+            k = chk.rng.randrange(2, 9)
+            hist = [chk.rng.choice(vals) for _ in range(k)]
+            if chk.rng.random() < 0.6:
+                hist = [s for s in hist if s[0] == "rw"] or hist
+        sql = ";\n".join(render_sql(s) for s in hist) + ";"      # every statement ends the same way (textually identical repeats)
         facts = []
 
         def tap(self, s, mp_, _orig=orig, _facts=facts):
@@ -351,6 +363,25 @@ def part_sql(chk, drv):
                     chk.violation("script summary contradicts the per-statement reads/writes seen by the statement tap",
                                   {"kind": "sql-script", "sql": sql, "facts": facts, "summary": got, "expected": exp})
                     return n
+            else:
+                # histories with DROP/RENAME: the runner must agree with the assembler applied to freshly built holders of
+                # the very statements it analysed (implementation vs implementation, no model)
+                fresh = impl_outcome(hist)
+                if "roles" in fresh:
+                    exp = tuple(sorted(pfx + tname(x) for x in fresh["roles"][k]) for k in ("source", "target", "intermediate"))
+                    # each statement analysed ALONE must give the abstract facts (then the fresh assembly is the reference)
+                    solo = []
+                    for s1 in hist:
+                        h1 = LineageRunner(render_sql(s1) + ";", dialect="ansi")
+                        h1.source_tables
+                        hh = h1._stmt_holders[0]
+                        solo.append({"read": sorted(str(t) for t in hh.read), "write": sorted(str(t) for t in hh.write),
+                                     "drop": sorted(str(t) for t in hh.drop), "rename": sorted((str(a), str(b)) for a, b in hh.rename)})
+                    if solo == want_facts and exp != got:
+                        chk.violation("the script's summary differs from assembling its statements one by one (a statement was "
+                                      "skipped, cached or applied out of order)",
+                                      {"kind": "sql-script", "sql": sql, "facts": facts, "summary": got, "expected": exp})
+                        return n
             if len(chk.stale) < 20:
                 chk.stale.append({"kind": "sql-script", "sql": sql, "facts": facts, "want_facts": want_facts, "impl": got, "model": model_roles})
         elif n % 10 == 1:
